@@ -280,7 +280,24 @@ def photon_lib(timeout=1500):
         rc, out = sh('ninja -C %s photon_shared' % d, timeout=timeout)
         if rc != 0:
             raise RuntimeError('libphoton build failed:\n' + out[-5000:])
-    return os.path.join(d, 'output')
+        # ninja re-links output/libphoton.so IN PLACE; harnesses of concurrently running checks may be
+        # executing against it.  Hand out an immutable snapshot keyed by (size, mtime) instead.
+        src = os.path.realpath(os.path.join(d, 'output', 'libphoton.so'))
+        st = os.stat(src)
+        snap = os.path.join(d, 'snap', '%d_%d' % (st.st_size, int(st.st_mtime * 1000)))
+        if not os.path.exists(os.path.join(snap, 'libphoton.so')):
+            os.makedirs(snap, exist_ok=True)
+            tmpf = os.path.join(snap, '.libphoton.so.%d' % os.getpid())
+            shutil.copy2(src, tmpf)
+            os.replace(tmpf, os.path.join(snap, 'libphoton.so'))
+            for n in os.listdir(os.path.join(d, 'output')):        # versioned names / symlinks the linker may record
+                if n.startswith('libphoton.so.') and not os.path.exists(os.path.join(snap, n)):
+                    try: os.symlink('libphoton.so', os.path.join(snap, n))
+                    except OSError: pass
+            olds = sorted((os.path.join(d, 'snap', x) for x in os.listdir(os.path.join(d, 'snap'))), key=os.path.getmtime)
+            for o in olds[:-4]:
+                if o != snap: shutil.rmtree(o, ignore_errors=True)
+    return snap
 
 
 # ---------------------------------------------------------------- running ----
